@@ -45,6 +45,10 @@ func (fl *flow) path(v ssa.Value, d int) string {
 	}
 	switch x := v.(type) {
 	case *ssa.Parameter:
+		// inside a helper that the path engine is analysing in place, a parameter is that call's argument
+		if a := fl.p.boundArg(x); a != nil && d < 30 {
+			return fl.path(a, d+1)
+		}
 		// a parameter of a transparent helper (newfn.go) is the caller's argument
 		if site := fl.p.transparentSite(x.Parent()); site != nil {
 			if i, args := paramIndex(x), site.Common().Args; i >= 0 && i < len(args) {
